@@ -30,6 +30,9 @@ def run(repo, report, tier):
     report.guard("C04.R3", "report.FILTERS", r3_names, repo, report)
     report.guard("C04.R5", "process_reads", r5_loops, repo, report)
     report.guard("C04.R6", "runners", r6_collect, repo, report)
+    report.rule("C04.R7", "minimal_report: each documented column of --report=minimal shows the tally it is documented to show (reads/bases in, per-filter counts, reads out, R1/R2 with adapters, R1/R2 quality-trimmed bases, R1/R2 bases out), with Statistics' one-line properties resolved to what they compute",
+                "a column of the minimal report shows another quantity (e.g. bases of both reads under out_bp), so the report no longer adds up with the files")
+    report.guard("C04.R7", "minimal_report", r7_minimal_columns, repo, report)
     from . import builder_rules
 
     report.rule("C04.R4", "on every builder path the steps list ends with a consuming sink (writer or demultiplexer) and nothing follows it",
@@ -358,3 +361,97 @@ def r2_accumulates(repo, report):
     for o in hit:
         report.ob("C04.R2", "Statistics._collect_modifier: " + o.construct, None if o.state == "UNRECOGNISED" else o.state == "DISCHARGED", facts=o.facts, expected=o.expected, loc=o.loc, why=o.why)
     report.floor("C04.R2", "collector accumulation obligations", len(hit), 1)
+
+
+def _resolve_properties(repo, cls_name, expr, recv):
+    """Replace recv.<p> by the body of the one-line @property p of class cls_name (self -> recv), repeatedly."""
+    import copy
+    cls = repo.cls(cls_name)
+    props = {}
+    for name, m in cls.methods.items():
+        if any(chain(d) == "property" for d in m.decorator_list):
+            body = strip_docstring(m.body)
+            if len(body) == 1 and isinstance(body[0], ast.Return) and body[0].value is not None:
+                props[name] = body[0].value
+
+    def once(e):
+        hit = [False]
+
+        class T(ast.NodeTransformer):
+            def visit_Attribute(self, node):
+                self.generic_visit(node)
+                if isinstance(node.value, ast.Name) and node.value.id == recv and node.attr in props and isinstance(node.ctx, ast.Load):
+                    hit[0] = True
+                    b = copy.deepcopy(props[node.attr])
+                    for x in ast.walk(b):
+                        if isinstance(x, ast.Name) and x.id == "self":
+                            x.id = recv
+                    return b
+                return node
+
+        e = T().visit(e)
+        return e, hit[0]
+
+    e = copy.deepcopy(expr)
+    for _ in range(6):
+        e, again = once(e)
+        if not again:
+            break
+    return e
+
+
+_MINIMAL_COLUMNS = {
+    "in_reads": "S.n", "in_bp": "sum(S.total_bp)",
+    "too_short": "S.filtered.get('too_short', 0)", "too_long": "S.filtered.get('too_long', 0)", "too_many_n": "S.filtered.get('too_many_n', 0)",
+    "out_reads": "S.read_length_statistics.written_reads()",
+    "w/adapters": "S.with_adapters[0] if S.with_adapters[0] is not None else 0", "qualtrim_bp": "S.quality_trimmed_bp[0] if S.quality_trimmed_bp[0] is not None else 0",
+    "out_bp": "S.read_length_statistics.written_bp()[0]",
+    "w/adapters2": "S.with_adapters[1] if S.with_adapters[1] is not None else 0", "qualtrim2_bp": "S.quality_trimmed_bp[1] if S.quality_trimmed_bp[1] is not None else 0",
+    "out2_bp": "S.read_length_statistics.written_bp()[1]",
+}
+
+
+def r7_minimal_columns(repo, report):
+    from ..repo import nsrc
+    mr = repo.func("report", "minimal_report")
+    if mr is None:
+        raise Unrecognised("report.minimal_report not found")
+    st = params(mr)[0]
+
+    def collect(name):
+        """elements of the list bound to name: the literal it starts with, then the literal of the one `name += [...]` under `if <stats>.paired`"""
+        base, ext = None, None
+        for n in ast.walk(mr):
+            if isinstance(n, ast.Assign) and len(n.targets) == 1 and chain(n.targets[0]) == name and isinstance(n.value, ast.List):
+                base = n.value.elts if base is None else False
+            if isinstance(n, ast.AugAssign) and chain(n.target) == name and isinstance(n.op, ast.Add) and isinstance(n.value, ast.List):
+                par = getattr(n, "_parent", None)
+                if isinstance(par, ast.If) and src(par.test) == f"{st}.paired" and ext is None:
+                    ext = n.value.elts
+                else:
+                    ext = False
+        return base, ext
+
+    fb, fe = collect("fields")
+    hb, he = collect("header")
+    if not fb or not hb or fe in (None, False) or he in (None, False) or len(fb) != len(hb) or len(fe) != len(he):
+        raise Unrecognised("minimal_report: 'fields' and 'header' lists (literal + paired extension of equal lengths) not found", repo.loc(mr))
+    bad = []
+    n = 0
+    for h, f in list(zip(hb, fb)) + list(zip(he, fe)):
+        if not (isinstance(h, ast.Constant) and isinstance(h.value, str)):
+            raise Unrecognised("minimal_report: non-literal header entry", repo.loc(mr))
+        if h.value == "status":
+            continue
+        want = _MINIMAL_COLUMNS.get(h.value)
+        if want is None:
+            bad.append({"column": h.value, "problem": "no documented meaning on record"})
+            continue
+        n += 1
+        got = nsrc(src(_resolve_properties(repo, "Statistics", f, st)))
+        exp = nsrc(want.replace("S.", st + "."))
+        if got != exp:
+            bad.append({"column": h.value, "shows": got, "documented": exp})
+    report.ob("C04.R7", "minimal_report columns", not bad and n >= 12, facts={"columns": n, "problems": bad[:3]}, cases=n, loc=repo.loc(mr),
+              expected="each column shows its documented tally (doc/guide.rst, 'Minimal report'), e.g. out_bp = bases written to R1, out2_bp = bases written to R2",
+              why=(f"column {bad[0]['column']} shows {bad[0].get('shows')}, documented is {bad[0].get('documented')}" if bad else ""))
